@@ -48,6 +48,9 @@ def variants(rng, text, all_boundaries):
         k = rng.randint(1, 2)
         new = text[:m.start()] + "'" + m.group(1) + "\n" * k + "z'" + text[m.end():]
         out.append(("widen string literal on line %d by %d" % (row, k), new, row + 1, k))
+        # the same literal continued with a backslash at the end of the line (double-quoted): one more line, same statement
+        new2 = text[:m.start()] + '"' + m.group(1).replace('"', "") + "\\\n" * k + 'z"' + text[m.end():]
+        out.append(("widen string literal on line %d by %d (backslash continuation)" % (row, k), new2, row + 1, k))
     # final newline
     out.append(("drop final newline", "\n".join(lines), 10 ** 9, 0))
     out.append(("extra final newline", "\n".join(lines) + "\n\n", 10 ** 9, 0))
